@@ -118,6 +118,7 @@ pub fn copy64_types(tier: Tier, v: &mut impl VisitorCopy) {
     v.visit::<Dual2SVec64<2>>(Dims::n(2));
     v.visit::<HyperDualSVec64<2, 2>>(Dims::mn(2, 2));
     v.visit::<Dual2<Dual2_64, f64>>(Dims::NONE);
+    v.visit::<HyperDual<Dual64, f64>>(Dims::NONE);
     if tier == Tier::Thorough {
         v.visit::<Dual<Dual3_64, f64>>(Dims::NONE);
         v.visit::<Dual3<Dual64, f64>>(Dims::NONE);
